@@ -219,7 +219,11 @@ def main():
     cases.append(dict(op="End", builder=BST, op_row=40, chip_row=20, chip=opbits("Call"), cur_consts={H(6): 1, H(7): 0, H(5): 0},
                       what="block stack table: the row CALL added (with the execution context)",
                       rel4=lambda cur, nxt, q, r: [(cur(ADDR), r(ADDR)), (nxt(ADDR), q(ADDR)), (nxt(SYS_CTX), q(SYS_CTX)), (nxt(SYS_FMP), q(SYS_FMP)), (nxt(B0c), q(B0c)), (nxt(B1c), q(B1c))]
-                      + [(cur(FNH + i), q(H(i))) for i in range(4)]))
+                      + [(nxt(FNH + i), q(FNH + i)) for i in range(4)]))
+    cases.append(dict(op="End", builder=BST, op_row=40, chip_row=20, chip=opbits("SysCall"), cur_consts={H(6): 0, H(7): 1, H(5): 0},
+                      what="block stack table: the row SYSCALL added (with the execution context; the function hash is the caller's)",
+                      rel4=lambda cur, nxt, q, r: [(cur(ADDR), r(ADDR)), (nxt(ADDR), q(ADDR)), (nxt(SYS_CTX), q(SYS_CTX)), (nxt(SYS_FMP), q(SYS_FMP)), (nxt(B0c), q(B0c)), (nxt(B1c), q(B1c))]
+                      + [(nxt(FNH + i), q(FNH + i)) for i in range(4)]))
     # block hash table p2: the END of a called procedure's body removes the entry CALL added (parent = the call block, hash = h0..h3 of
     # the CALL row, not a loop body, the next operation is the END of the call block)
     cases.append(dict(op="End", builder=BHT, op_row=40, chip_row=20, chip=opbits("Call"), cur_consts={H(4): 0}, next_consts=opbits("End"),
@@ -374,6 +378,7 @@ def confirm(V, name, path, op):
     V.add(name, "inconclusive", detail=f"solver counterexample; native bus column back at 1 for {progs}")
 
 
+TABLE_KERNEL = "export.foo push.1 drop end export.bar push.2 drop end"
 TABLE_PROGRAMS = ["begin repeat.80 push.1 drop end end", "begin repeat.18 padw end drop end", "proc.f push.1 drop end begin call.f end",
                   "begin push.1 if.true push.2 drop else push.3 drop end push.1 while.true push.0 end end",
                   "proc.f push.1 drop end proc.g call.f push.2 drop end begin call.g call.f end"]
@@ -382,10 +387,12 @@ TABLE_PROGRAMS = ["begin repeat.80 push.1 drop end end", "begin repeat.18 padw e
 def confirm_tables(V, name, path):
     """native: every virtual-table column of real traces (decoder p1..p3, chiplets table and bus) must end at 1"""
     import masmsym
-    nats = masmsym.native([{"kind": "trace_check", "source": src, "stack": [], "advice": [], "aux": True} for src in TABLE_PROGRAMS], "c12t")
-    for src, nat in zip(TABLE_PROGRAMS, nats):
+    progs = [(src, None) for src in TABLE_PROGRAMS] + [("begin syscall.foo syscall.bar end", TABLE_KERNEL), ("proc.f syscall.foo end begin call.f syscall.bar end", TABLE_KERNEL)]
+    nats = masmsym.native([dict(kind="trace_check", source=src, stack=[], advice=[], aux=True, **({"kernel": k} if k else {})) for src, k in progs], "c12t")
+    for (src, k), nat in zip(progs, nats):
         fin = nat.get("aux_final") or []
-        bad = [i for i in (0, 1, 2, 5, 6) if i < len(fin) and fin[i] != "1"]  # decoder p1, p2, p3; chiplets table; chiplets bus
+        # decoder p1, p2, p3; chiplets table; chiplets bus (with a kernel the bus ends at the kernel procedure table's value)
+        bad = [i for i in ((0, 1, 2, 5) if k else (0, 1, 2, 5, 6)) if i < len(fin) and fin[i] != "1"]
         if nat.get("status") == "ok" and bad:
             V.violation(name, path, f"{name}; native trace of `{src}`: auxiliary column(s) {bad} end at {[fin[i] for i in bad]} instead of 1", key="tables:" + name.split(":")[1][:12])
             return
